@@ -77,32 +77,46 @@ CONFIG = dict(
     harness=dict(pkg="proxy", test="TestVerifC18", go="go1.26"),
     stats=c18_stats,
     nontrivial=c18_nontrivial,
-    rule="three PRNG families: (1) token attribute vectors (header alg x actual signing method/key x signature mutation x "
+    rule="four PRNG families: (1) token attribute vectors (header alg x actual signing method/key x signature mutation x "
          "issuer x iat/nbf/exp offsets on and around every leeway/age boundary, at integer and fractional virtual clock "
          "readings; 10 hellos per case), (2) command histories of 1-3 sessions over up to ~10 connections (create/delete "
-         "own and foreign publishers/subscribers, payloads, remote commands, bye, close, resume with exact/mutated ids, "
-         "virtual sleeps around the 54 s ping and 60 s expiry, the server's expireSessions, MCU disconnect, MCU-side close), "
-         "(3) malformed/pre-hello streams next to a bystander session. Non-trivial: token/pre-hello case with at least one "
-         "refusal; history in which objects existed and later stopped resolving. distinct = distinct op lists",
-    trusted_base=["golang-jwt v5.2.2 parsing/validation order (restated in Model/Proxy.lean parseToken) and its low-level "
+         "own and foreign publishers/subscribers incl. creations the media server answers late, payloads, remote commands, "
+         "bye, close, resume with exact/mutated ids, virtual sleeps around the 54 s ping and 60 s expiry, the server's "
+         "expireSessions, MCU disconnect, MCU-side close), (3) malformed/pre-hello streams next to a bystander session, "
+         "(4) late media-server answers after takeover / bye / expiry / MCU loss; minimised past failures (corpus/C18) run "
+         "first. Non-trivial: token/pre-hello case with at least one refusal; history or late case in which objects "
+         "existed and later stopped resolving. distinct = distinct op lists",
+    trusted_base=["golang-jwt v5.2.2 parsing/validation order (restated in Model/Proxy.lean `checks`) and its low-level "
                   "SigningMethod.Verify used as the signature oracle by the harness",
                   "testing/synctest virtual clock (go1.26), gorilla/websocket over net.Pipe, harness media server "
-                  "(Close calls the listener back like mcu_janus_publisher/subscriber.go)",
-                  "RSA/HMAC unforgeability is not proved: signatures are an oracle parameter of the model"],
-    assumptions=["client messages and server events are processed one at a time to quiescence (no two commands of one or "
-                 "several sessions in flight concurrently; the unlocked window inside deleteSessionLocked, the goroutines "
-                 "of clearPublishers/clearSubscribers and the wrong mutex in clearSubscribers are outside the model)",
-                 "remote publishing state (ProxySession.remotePublishers), shutdown scheduling, etcd token storage and "
-                 "remote (proxy-to-proxy) subscribers are not modelled",
-                 "resume attaches a connection to an existing session by its id without a token; the statement's token "
-                 "clause is read as being about session *creation*"],
+                  "(Close calls the listener back like mcu_janus_publisher/subscriber.go; a late creation ignores its context)",
+                  "RSA/HMAC unforgeability is not proved: signatures are an oracle parameter of the model (Tok.verifies)"],
+    assumptions=["client messages and server events are atomic steps run to quiescence, except create-publisher/"
+                 "create-subscriber, which are two steps (command accepted / media server answers) with any other steps "
+                 "in between; messages queued on a connection whose handler is blocked in the media server are not modelled",
+                 "not modelled: the unlocked window inside deleteSessionLocked, goroutine interleavings inside "
+                 "clearPublishers/clearSubscribers (lock discipline is a regenerated fact only), "
+                 "ProxySession.remotePublishers, shutdown scheduling, etcd token storage, remote (proxy-to-proxy) subscribers",
+                 "resume attaches a connection to an existing session by its public id without a token; the statement's "
+                 "token clause is read as being about session creation (C18_resume_needs_live_id covers resume)",
+                 "commands other than delete (payload, publish-remote, unpublish-remote, get-publisher-streams) are not "
+                 "ownership-checked by the code and the statement does not ask for it"],
 )
 
 MANIFEST = dict(
-    text="Machine-checked Lean 4 theorems about a model of the media proxy (token decision as in parseToken + jwt "
-         "validator with a signature oracle, sessions, global client table, per-session ownership, commands, payloads, "
-         "bye, resume, expiry, ping keep-alive, MCU loss) defined over facts regenerated from the Go source.",
-    note="Trusted: Lean kernel, extractor, harness/comparison, golang-jwt, synctest. Crypto assumed (oracle).",
-    technique="Lean 4 proof (inductive invariant over all op sequences) + regenerated facts + differential correspondence "
-              "under a virtual clock",
+    text="Machine-checked Lean 4 theorems about a model of the media proxy (parseToken + jwt validator as an ordered "
+         "list of checks with a signature oracle; sessions, global client table, per-session ownership tables, media "
+         "server objects with their creating session; hello/resume, commands, payloads, bye, close, ping keep-alive, "
+         "expiry, MCU loss, MCU-side close, late MCU answers) defined over facts regenerated from the Go source: for "
+         "every history each live session stems from a hello whose token was RS256/384/512, verified under its issuer's "
+         "key and issued within [now-6min, now+1min]; every non-hello message on a session-less connection is refused "
+         "without any state change; in every reachable state whatever resolves or is open belongs to a live session "
+         "(cleanup after bye/expiry/any end), nothing resolves after MCU loss; a delete succeeds only for the creating "
+         "session and otherwise leaves the object resolvable and open. Tied to the code by 33 regenerated facts and a "
+         "differential run of the real ProxyServer under a virtual clock.",
+    note="One defect found and fixed (b027f0e): object created after its session ended stayed open/resolvable. "
+         "Trusted: Lean kernel, extractor, harness/comparison, golang-jwt, synctest; crypto assumed (oracle). "
+         "Step granularity: messages atomic except two-phase create.",
+    technique="Lean 4 proof (inductive invariant over all op sequences, refinement of the token check list to the "
+              "statement's ValidToken) + regenerated facts + differential correspondence under testing/synctest",
 )
